@@ -191,6 +191,9 @@ func (r *Recorder) Violate(sig, desc string, c any) {
 		return
 	}
 	r.viol[sig] = &Violation{Sig: sig, Desc: desc, Case: c, N: 1}
+	// a new kind of violation is put on disk at once: if a later case never comes back and the watchdog ends the
+	// process, what was already observed is still reported
+	r.write(false)
 }
 
 func (r *Recorder) NViolations() int {
